@@ -8,7 +8,7 @@ from .. import AnalysisError
 from ..cfg import CFG, Node, describe_path, no_exc
 from ..effects import CONST, FRESH, SELF, Eff
 from ..program import FuncInfo, ancestors, enclosing_stmt, norm, parent, walk_local
-from .common import same_key_rebuild, sub_nodes
+from .common import incoming_element, same_key_rebuild, sub_nodes
 
 EXPLANATION = (
     "Decided for all paths of every function that touches them: (backref) adding/removing a metabolite or gene "
@@ -30,8 +30,6 @@ ASSUMPTIONS = [
 
 MODEL_LISTS = {"Model.reactions": "Reaction", "Model.metabolites": "Metabolite", "Model.genes": "Gene", "Model.groups": "Group"}
 BACKREF_EXCEPTIONS = {
-    ("core.model.Model.add_reactions", "stoichiometry = reaction._metabolites.pop(metabolite)"):
-        "the popped key is a *foreign copy* of a model metabolite; its stale back-reference is not model state",
     ("core.model.Model.remove_reactions", "met._reaction.remove(reaction)"):
         "the reaction is detached in the same operation and keeps its stoichiometry so that it can be re-added",
     ("core.model.Model.remove_reactions", "gene._reaction.remove(reaction)"):
@@ -177,6 +175,10 @@ def check_backref(ctx) -> None:
             key = (fn.qualname.replace("cobra.", "", 1), norm(st))
             if key in BACKREF_EXCEPTIONS:
                 ctx.ok("C02.backref", fn, st, f"frozen exception: {BACKREF_EXCEPTIONS[key]}")
+                continue
+            owner_name = e.recv.value if isinstance(e.recv, ast.Attribute) else None
+            if e.op == "remove" and isinstance(owner_name, ast.Name) and incoming_element(ctx, fn, owner_name.id):
+                ctx.ok("C02.backref", fn, st, f"`{owner_name.id}` is an element of the collection this operation inserts into the model: the key it drops is a foreign copy of a model metabolite, whose stale back-reference is not model state")
                 continue
             kind = _classify_forward_write(ctx, fn, e)
             if kind == "existing":
@@ -531,7 +533,7 @@ def check_index(ctx) -> None:
         reidx = [n for n in walk_local(fn.node) if isinstance(n, ast.Call) and isinstance(n.func, ast.Attribute) and n.func.attr == "_generate_index"]
         for w in writes:
             want_lists = {LISTED[c] for c in classes}
-            have = {norm(r.func.value).split(".")[-1] for r in reidx}
+            have = {norm(ctx.inf.expand_alias(fn, r.func.value)).split(".")[-1] for r in reidx}
             if not (want_lists <= have):
                 missing = sorted(c for c in classes if LISTED[c] not in have)
                 ctx.bad(
